@@ -76,6 +76,11 @@ def gen_frame_case(rng):
         c["prior"] = [hx(5.0)] * (F * T)
     elif r < 0.24:
         c["prior"] = [hx(float(int(rng.gauss(100, 10)))) for _ in range(F * T)]; c["dtype"] = "float32"
+    if r >= 0.24 and r < 0.29:
+        # data preloaded as integers (raw counts): noise cannot be added to an integer array, but after zero_data() the frame is an
+        # ordinary empty frame again
+        c["prior"] = [hx(float(int(rng.gauss(100, 10)))) for _ in range(F * T)]; c["dtype"] = "int64"
+        c["ops"].append(["zero"])
     for _ in range(rng.randint(1, 6)):
         r = rng.random()
         if r < 0.22:
